@@ -128,7 +128,11 @@ def run(tier, seed):
     chk = Check("C17", tier, seed, "other")
     from ..kernels import c01_numpy_wrappers
     from ..kernels.base import run_kernel
-    for k in [q for q in c01_numpy_wrappers.KERNELS if q.prop == "C17"]:
+    # 'the number of backend calls is fixed by the description and never grows with tensor sizes': every numpy wrapper is proved to call its numpy function exactly once (n-ary
+    # operations: once per operand pair), whatever the VALUES of its arguments are - the kernels of the wrapper layer are re-run here under that reading
+    from ..kernels import c01_numpy_wrappers2, c01_preserve_shape, c09_np_elementwise, c09_nary
+    wrappers = list(c01_numpy_wrappers.KERNELS) + [q for q in c01_numpy_wrappers2.KERNELS if "np_" in q.id] + [q for q in c01_preserve_shape.KERNELS if "np_" in q.id] + c09_np_elementwise.KERNELS + c09_nary.KERNELS
+    for k in wrappers:
         chk.add_kernel(run_kernel(k, tier))
     ok, sites, failing = frame.rule_join_order()
     chk.add_rule("C17.S.join_order", ok, sites, failing)
